@@ -33,7 +33,7 @@ func (t *CType) Locus() map[string]string {
 		l["elem"], l["shape"], l["ctx"] = t.Cell.Elem, t.Cell.Shape, t.Cell.Ctx
 		l["family"] = "cell"
 	} else {
-		l["family"] = "random"
+		l["family"] = strings.SplitN(t.Label, "/", 2)[0]
 		l["schema"] = t.Label
 	}
 	return l
@@ -56,6 +56,7 @@ type corpusCfg struct {
 	Flags       []string // extra go build flags (e.g. -asan)
 	Name        string
 	Extra       []schema.Named // extra schemas
+	NoExtremes  bool
 }
 
 // buildCorpus generates, compiles and links the codec corpus.
@@ -107,6 +108,9 @@ func buildCorpus(r *core.Run, cfg corpusCfg) (*Corpus, error) {
 		rnd = append(rnd, schema.Named{Name: fmt.Sprintf("random/%d/%d", r.Seed, i), S: g.Random()})
 	}
 	rnd = append(rnd, cfg.Extra...)
+	if !cfg.NoExtremes {
+		rnd = append(rnd, schema.ExtremesFamily()...)
+	}
 	for i, nm := range rnd {
 		o := cfg.Opts[i%len(cfg.Opts)]
 		n++
